@@ -518,7 +518,7 @@ impl Gen {
         match self.rng.below(if chaos { 9 } else { 3 }) {
             0 | 1 => {
                 let ep = if opt(&mut self.rng) { Some(*self.rng.pick(&[1u64, 5, 30, 3600])) } else { None };
-                let fee = if opt(&mut self.rng) { Some(self.rand_dec(chaos)) } else { None };
+                let fee = if opt(&mut self.rng) { Some(self.rand_dec(true)) } else { None };
                 let thr = if opt(&mut self.rng) { Some(self.rand_dec(chaos)) } else { None };
                 let rd = if chaos && self.rng.chance(1, 4) { Some(REWARD_DENOM.to_string()) } else { None };
                 // keep the pause state: the message must carry it (omitted = cleared)
@@ -526,7 +526,7 @@ impl Gen {
                 hub_update_params(&hub_owner, ep, None, fee, thr, p, rd)
             }
             2 => {
-                let rate = if opt(&mut self.rng) || !chaos { Some(self.rand_dec(chaos)) } else { None };
+                let rate = if opt(&mut self.rng) || !chaos { Some(self.rand_dec(true)) } else { None };
                 let ka = if opt(&mut self.rng) { Some(KEEPER.to_string()) } else { None };
                 raw(
                     "dispatcher_update_config",
